@@ -221,6 +221,22 @@ class BlockColumnOperator(AbstractBlockOperator):
 class AbstractBlockDiagonalRule(AbstractBinaryRule):
     reduced_class: type[AbstractBlockOperator] | type[AdditionOperator]
 
+    def check(self, left: AbstractLinearOperator, right: AbstractLinearOperator) -> None:
+        from .rules import NoReduction
+
+        super().check(left, right)
+        assert isinstance(left, AbstractBlockOperator)  # mypy assert
+        assert isinstance(right, AbstractBlockOperator)  # mypy assert
+
+        def is_leaf(x: Any) -> bool:
+            return isinstance(x, AbstractLinearOperator)
+
+        # the blocks can only be combined pairwise if both containers have the same layout
+        left_treedef = jax.tree.structure(left.blocks, is_leaf=is_leaf)
+        right_treedef = jax.tree.structure(right.blocks, is_leaf=is_leaf)
+        if left_treedef != right_treedef:
+            raise NoReduction
+
     def apply(
         self, left: AbstractLinearOperator, right: AbstractLinearOperator
     ) -> list[AbstractLinearOperator]:
